@@ -492,7 +492,7 @@ def run(ctx):
     rng = ctx.rng
     quick = ctx.tier == "quick"
     nsets = 4 if quick else 20
-    nq = ctx.budget(29000, 16 * 20 * 3600) // nsets
+    nq = ctx.budget(26000, 16 * 20 * 3600) // nsets
     n = 250 if quick else 300
     first = rng.randrange(4)
     for si in range(nsets):
@@ -545,7 +545,12 @@ MANIFEST = {
             "are answered by the real code and compared, as multisets of ids, with a brute-force scan of the model list "
             "using the statement's predicates. The statement trace records for every query whether the bin clause was in "
             "the SQL, so both paths (with/without pre-filter, fewer/more than 900 bins, bounds beyond 2**29) are shown to "
-            "have been exercised. Held = no executed query disagreed.",
+            "have been exercised. Further databases hold seqids that differ only in letter case with twin features at the same "
+            "coordinates (a query for one spelling must not return the other's), or small features in the first 128 kb plus "
+            "features around the bin ends of every level, queried with 100-500 Mb completely_within spans and with ends on "
+            "the last base of a bin. 'interleave' cases keep 2-4 generators of one FeatureDB alive (zip-like, random "
+            "schedule, nested region(feature)/limit= loops inside a loop over another query): each must yield exactly what "
+            "it yields alone. Held = no executed query disagreed.",
     "note": "Trusted: the scan in gvmon/models/C06.py, sqlite3. One-sided queries are judged by a sandwich (strictly beyond <= "
             "result <= at or beyond). Not covered: queries without any bound, empty featuretype collections, hierarchies deeper "
             "than one level under limit=.",
